@@ -26,6 +26,7 @@ type rec struct {
 	mu     sync.Mutex
 	start  time.Time
 	events []drv.Step
+	closed bool // after End: what the teardown provokes is not part of the trace
 }
 
 func (r *rec) ms() int { return int(time.Since(r.start) / time.Millisecond) }
@@ -33,6 +34,12 @@ func (r *rec) ms() int { return int(time.Since(r.start) / time.Millisecond) }
 func (r *rec) log(ev drv.Step) {
 	r.mu.Lock()
 	defer r.mu.Unlock()
+	if r.closed {
+		return
+	}
+	if ev["ev"] == "End" {
+		r.closed = true
+	}
 	if _, ok := ev["t"]; !ok {
 		ev["t"] = r.ms()
 	}
